@@ -180,7 +180,16 @@ class Ownership(Machine):
     def _op_new_value(self, op):
         kind = gen.SHAPE_KINDS[op["kind"] % len(gen.SHAPE_KINDS)]
         d = 3 if (op["d3"] and kind != "TexturedTriMesh") else 2
-        self._put(Cell(gen.make_shape(kind, op["seed"], 3 + op["seed"] % 5, d), "value", kind, d), op["dst"])
+        o = gen.make_shape(kind, op["seed"], 3 + op["seed"] % 5, d)
+        if (op["seed"] >> 5) % 4 == 0:
+            # an object with a history: rebuilt from a parameter vector, it holds a (read-only) view of that vector
+            try:
+                o = o.from_vector(np.array(o.as_vector()))
+                o = o.from_vector(o.as_vector())
+                self.ctx.probe("value_rebuilt_from_its_vector")
+            except Exception as ex:
+                self.ctx.fail("copy", "from_vector_raised_" + kind, repr(ex))
+        self._put(Cell(o, "value", kind, d), op["dst"])
 
     def _op_new_manager(self, op):
         self._put(Cell(LandmarkManager(), "manager", "LandmarkManager", None), op["dst"])
@@ -375,7 +384,9 @@ class Ownership(Machine):
         tgt = self._pick(("owner", "manager"), op["i"])
         if tgt is None:
             return
+        before = walker.arrays(self._mgr(tgt))
         m2 = self._mgr(tgt).copy()
+        self._untouched(self._mgr(tgt), before, "LandmarkManager")
         c = Cell(m2, "manager", "LandmarkManager", None)
         c.groups = OrderedDict(tgt.groups)
         c.had_dim = getattr(tgt, "had_dim", None)
@@ -395,11 +406,13 @@ class Ownership(Machine):
             self.ctx.probe("own_manager_assigned_back")
         m = self._mgr(src)
         md = m[list(src.groups)[0]].n_dims if src.groups else None
+        before = walker.arrays(m) if src is not owner else []
         try:
             owner.obj.landmarks = m
             raised = None
         except Exception as ex:
             raised = ex
+        self._untouched(m, before, "LandmarkManager(assigned)")
         if md is not None and md != owner.d:
             ctx.require(raised is not None, "manager", "assigned_manager_of_other_dimension",
                         lambda: "%dD landmarks were assigned to a %dD %s" % (md, owner.d, owner.kind))
@@ -425,6 +438,18 @@ class Ownership(Machine):
             al += list(o.transforms)
         return al
 
+    def _untouched(self, obj, before, kind):
+        """Copying (or assigning) must leave the object that was copied alone: the arrays it was made of are still
+        the arrays it is made of - a reference fetched earlier (a stored group, its points) still edits THIS object
+        and nothing else."""
+        after = dict(walker.arrays(obj))
+        for p, a in before:
+            b = after.get(p)
+            ok = b is not None and (b is a or a.size == 0 or np.shares_memory(a, b))
+            self.ctx.require(ok, "independent", "copying_replaced_the_arrays_of_the_original_%s" % kind,
+                             lambda: "after the call %s of the original is another buffer than before: a reference "
+                                     "taken earlier no longer edits the original" % p)
+
     def _static_sharing(self, a, b, kind, allowed, only=None):
         sh = walker.shared_buffers(a, b, allowed=allowed, only=only)
         self.ctx.probe("copy_pair_static_sharing_checked")
@@ -436,11 +461,13 @@ class Ownership(Machine):
         src = self._pick(("owner", "value", "other", "manager"), op["i"])
         if src is None:
             return
+        before = walker.arrays(src.obj)
         try:
             c = src.obj.copy()
         except Exception as ex:
             ctx.fail("copy", "copy_raised_" + src.kind, repr(ex))
             return ()
+        self._untouched(src.obj, before, src.kind)
         d = walker.diff(c, src.obj, skip=SKIP)
         ctx.require(d is None and type(c) is type(src.obj), "copy", "not_equal_" + src.kind, lambda: "copy differs: %s" % d)
         self._static_sharing(c, src.obj, src.kind, self._allowed(src.obj), only=src.param_paths)
@@ -535,6 +562,9 @@ class Ownership(Machine):
             v = self._pick(("value", "owner"), op["j"])
             if v is None or v.kind in gen.IMAGE_KINDS:
                 return
+            if not v.obj.points.flags.writeable:
+                ctx.probe("value_with_read_only_array_not_edited")
+                return ()
             v.obj.points[int(g.randint(v.obj.n_points))] += 3.25
             if getattr(v, "assigned", False):
                 ctx.probe("edit_value_after_assign")
@@ -545,6 +575,8 @@ class Ownership(Machine):
                 return
             nm = list(tgt.groups)[op["name"] % len(tgt.groups)]
             grp = self._mgr(tgt)[nm]
+            if not grp.points.flags.writeable:
+                return ()
             grp.points[0] -= 1.5
             tgt.groups[nm] = dg(grp)
             ctx.probe("edit_stored_group")
